@@ -608,6 +608,8 @@ class Analyzer:
         # integer scrutinee: equality on the taken value
         e = self.ev_op(op)
         if e is not None:
+            if otherwise and not vals and others:
+                self._last_diseq = [add(e, lin(c=v), -1) for v in others]
             if len(vals) == 1 and not otherwise:
                 return eq(e, lin(c=vals[0]))
             if otherwise and not vals and sorted(others) == list(range(len(others))) and others:
@@ -661,17 +663,27 @@ class Analyzer:
                 return [le(eb, ea)]
             if o == 'Eq':
                 return eq(ea, eb)
+            if o == 'Ne':
+                # not linear: kept aside as `ea - eb != 0`, used by prove() to tighten a bound it meets (x >= c and
+                # x != c give x >= c + 1)
+                self._last_diseq = [add(ea, eb, -1)]
         return []
 
     def edge_facts(self, site_block, site_idx):
         fn = self.fn
         out = []
+        self._diseq = []
         for s in fn.doms(site_block):
             preds = [p for p in fn.preds()[s] if p in fn.idom() and not fn.dominates(s, p)]
             if len(preds) != 1:
                 continue
             p = preds[0]
+            self._last_diseq = []
             cs = self.cond_constraints(p, s)
+            for dq in self._last_diseq:
+                if self.stable_between(self.mutable_atoms(dq), ('edge', p, s), (site_block, site_idx)):
+                    self._diseq.append(dq)
+            self._last_diseq = []
             if not cs:
                 continue
             atoms = set()
@@ -893,6 +905,7 @@ class Analyzer:
         self._len_ty = {}
         facts = []
         facts += self.edge_facts(site_block, site_idx)
+        my_diseq = list(getattr(self, '_diseq', []))
         facts += self.slice_facts(site_block, site_idx)
         facts += self.assert_facts(site_block, site_idx)
         facts += self.mono_facts(site_block, site_idx)
@@ -910,6 +923,7 @@ class Analyzer:
         facts += vf
         facts += self.incr_facts(site_block, site_idx)
         self._site = (site_block, site_idx)
+        self._diseq = my_diseq          # nested queries (variant / flag facts) have their own
         return facts
 
     def inv_facts(self, site_block, site_idx):
@@ -1175,6 +1189,7 @@ class Analyzer:
         atoms = set(a for c in facts + list(goals) for a in c)
         self._collect_tys(atoms)
         facts = facts + self.type_facts(atoms) + self.array_len_facts(atoms)
+        facts = facts + self.tighten(facts)
         res = [entails(facts, g) or self._minmax_entails(facts, g) for g in goals]
         if all(res) or not split:
             return all(res), facts, res
@@ -1205,6 +1220,32 @@ class Analyzer:
                 break
         self._site = (site_block, site_idx)
         return allok, facts, ([True] * len(goals) if allok else res)
+
+    def tighten(self, facts):
+        """Integer disequalities met on dominating edges (`x != c`): where the facts already give x >= c (or x <= c) the
+        bound moves by one.  Iterated a few times (`x != 0`, `x != 1` on an unsigned x give x >= 2)."""
+        out = []
+        dq = list(getattr(self, '_diseq', []))
+        if not dq:
+            return out
+        atoms = set(a for c in dq for a in c)
+        self._collect_tys(atoms)
+        extra = self.type_facts(atoms)
+        for _ in range(4):
+            changed = False
+            for e in list(dq):
+                cur = facts + extra + out
+                if entails(cur, scale(e, -1)):                 # e >= 0 known, e != 0  =>  e >= 1
+                    out.append(add(lin(c=1), e, -1))
+                    dq.remove(e)
+                    changed = True
+                elif entails(cur, e):                          # e <= 0 known, e != 0  =>  e <= -1
+                    out.append(add(e, lin(c=1)))
+                    dq.remove(e)
+                    changed = True
+            if not changed:
+                break
+        return out + (extra if out else [])
 
     def _minmax_entails(self, facts, goal, depth=0):
         """A goal that needs a LOWER bound of r = min(a, b) (or an UPPER bound of r = max(a, b)) holds if it holds with r
